@@ -56,6 +56,9 @@ func (t *subscribeTransaction) Suback(mqSuback *mqPkts.SubackPacket) error {
 		t.Success()
 	} else {
 		returnCode = snPkts1.RC_NOT_SUPPORTED
+		// The TopicID registered for this subscription (if any) was not
+		// accepted by the client, hence it must not be used in a PUBLISH.
+		t.handler.registeredTopics.Delete(t.topicID)
 		t.Fail(fmt.Errorf("MQTT SUBACK return code: %d", mqSuback.ReturnCodes[0]))
 	}
 	snPkt := snPkts1.NewSuback(t.topicID, returnCode, grantedQOS)
